@@ -69,8 +69,14 @@ def app_scenario(ctx):
     rows = [P.X[s:s + L] for s, L in zip(starts, P.lengths)]
     if fmt == 'npy':
         feats = []
+        # files are listed explicitly on the command line, in trajectory order - which need not be the order of their names
+        names = t.perm(len(rows)) if t.flag() else list(range(len(rows)))
+        if names != sorted(names):
+            ctx.hit('app_files_not_in_name_order')
         for i, r in enumerate(rows):
-            fn = os.path.join(d, 'feat%02d.npy' % i)
+            fn = os.path.join(d, 'run-%d.npy' % names[i]) if t.flag() else os.path.join(d, 'feat%02d.npy' % names[i])
+            if fn in feats:
+                fn = os.path.join(d, 'feat%02d.npy' % names[i])
             np.save(fn, r)
             feats.append(fn)
     else:
@@ -97,6 +103,9 @@ def app_scenario(ctx):
         sub = t.irange(2, 3)
         argv += ['--subsample', str(sub), '--no-reassign']
         ctx.hit('app_subsample')
+    elif t.flag(1, 4):
+        argv += ['--no-reassign']          # documented to have no effect without subsampling
+        ctx.hit('app_no_reassign_without_subsample')
     ctx.scenario.update(P.describe(), family='app', algo=algo, n_clusters=k, dist_cutoff=cutoff, n_iters=n_iters, features=fmt,
                         poison=poison, argv=[a if not a.startswith(d) else os.path.basename(a) for a in argv])
     ctx.fp('app', P.N, tuple(P.lengths), P.dtype, P.metric_name, algo, k, cutoff, n_iters, fmt, poison, P.X.tobytes())
